@@ -2,7 +2,7 @@
 import vlib
 from props import recfam
 
-INV = ['C18_OnlyRootControlled', 'C18_RecheckedEveryTime', 'C18_ConfigFile', 'C18_BareNameChecked', 'C18_CliConfigChecked']
+INV = ['C18_OnlyRootControlled', 'C18_RecheckedEveryTime', 'C18_ConfigFile', 'C18_BareNameChecked', 'C18_CliConfigChecked', 'C18_RelativeRunsChecked', 'C18_BusyNotRun']
 
 
 def check(run):
